@@ -149,10 +149,6 @@ theorem Store.mod_mod (S : Store) (id : Nat) (f g : Stream → Stream)
     simp only [this]
     exact Store.set_set _ _ _ (hg _)
 
-theorem Store.get?_mod' (S : Store) (id : Nat) (f : Stream → Stream) (hf : ∀ x, (f x).key = x.key) (k : Nat) :
-    (Store.mod S id f).get? k = if k = id then (S.get? id).map f else S.get? k :=
-  Store.get?_mod S id f k (fun x _ => hf x)
-
 theorem qPush_store (s : Streams) (q : QName) (id : Nat) :
     (s.qPush q id).1.store =
       if (Store.getD' s.store id).isQueued q then s.store else Store.mod s.store id (fun st => st.setQueued q true) := by
